@@ -159,6 +159,15 @@ class C17(Prop):
             req = sx.inv_attr(sx.dx(tl), it) if mode == 'attr' else sx.inv_derive(
                 kw + sx.a_derive_ex(sx.dx(tl)) + ' ' + it[len(kw):])
             out.append((req, dict(features=('double', shape, mode, name), ok=ok, nontrivial=True)))
+            # the same with Ord / PartialOrd derived alongside (they look at `#[ord(..)]` only): the Eq obligation on the
+            # `#[eq(key = ..)]` value stays; a non-Ord `#[ord(key = ..)]` value is refused for Ord's own reason
+            ord_key_ok = '+ord:key-noneq' not in name
+            for tl in ([('Ord', None), ('PartialOrd', None), ('Eq', None), ('PartialEq', None)],
+                       [('Eq', None), ('PartialEq', None), ('PartialOrd', None), ('Ord', None)]):
+                req = sx.inv_attr(sx.dx(tl), it) if mode == 'attr' else sx.inv_derive(
+                    kw + sx.a_derive_ex(sx.dx(tl)) + ' ' + it[len(kw):])
+                out.append((req, dict(features=('double+Ord', shape, mode, name, tl[0][0]), ok=ok and ord_key_ok, nontrivial=True,
+                                      other_reason=None if ord_key_ok else 'Ord')))
         # generic: the checker re-uses the impl's where-clause
         T = sx.tid('T')
         gen = sx.generics([sx.gp_ty('T')])
@@ -210,7 +219,7 @@ class C17(Prop):
             elif not r.meta['ok'] and mo.compiled:
                 failures.append(dict(**{'class': 'eq-accepted-with-non-eq-component', 'mode': 'rustc'}, input=r.input_text(),
                                      expected='rejected: a compared component is not Eq', observed='compiles'))
-            elif not r.meta['ok'] and not any('Eq' in d['message'] for d in errs):
+            elif not r.meta['ok'] and not any('Eq' in d['message'] or (r.meta.get('other_reason') or '\0') in d['message'] for d in errs):
                 failures.append(dict(**{'class': 'eq-rejected-for-another-reason', 'mode': 'rustc'}, input=r.input_text(),
                                      expected='E0277 .. Eq is not satisfied', observed=[d['message'] for d in errs][:3]))
             else:
